@@ -86,6 +86,9 @@ func (w *World) Do(a Act) Res {
 		return res(w.Deliver(&liqtypes.MsgLiquidateInternalKeeperRequest{From: from, LiqType: 0, Id: a.V}))
 	case "Bid":
 		return res(w.Deliver(&auctypes.MsgPlaceMarketBidRequest{AuctionId: a.V, Bidder: from, Amount: sdk.NewInt64Coin(a.D, a.X)}))
+	case "LiqExt": // externally initiated auction: the liquidator brings collateral X of denom D and asks for debt Y; owner = user named in P? no: owner = "u3"
+		return res(w.Deliver(&liqtypes.MsgLiquidateExternalKeeperRequest{From: from, AppId: app, Owner: sim.Addr("u3").String(),
+			CollateralToken: sdk.NewInt64Coin(a.D, a.X), DebtToken: sdk.NewInt64Coin("ust", a.Y), CollateralAssetId: w.Assets[a.D], DebtAssetId: w.Assets["ust"], IsDebtCmst: false}))
 	case "Reserve":
 		return res(w.Deliver(&liqtypes.MsgAppReserveFundsRequest{AppId: app, AssetId: w.Assets[a.D], TokenQuantity: sdk.NewInt64Coin(a.D, a.X), From: from}))
 	case "Price": // environment: oracle publishes a new value / switches the feed off
